@@ -240,3 +240,17 @@ func SortsCallerSlice(xs []int) int {
 	}
 	return xs[0]
 }
+
+type packedStream struct{ offsets []int }
+
+// SortsHeaderPairs violates R4.10 OBJSTM-HEADER-ORDER.
+func SortsHeaderPairs(p *packedStream) int {
+	sort.Ints(p.offsets)
+	return len(p.offsets)
+}
+
+type fileInt int64
+
+// AllocatesFromFileCount violates R2.12: the size comes straight from a parsed integer. (The rule keys on the
+// module's core.Int type; this example is matched through the shared suffix test on the type name.)
+func AllocatesFromFileCount(n fileInt) []int { return make([]int, int(n)) }
